@@ -68,12 +68,13 @@ TEXT = {
             "histories with reopen through the public API.",
     "design_ref": "DESIGN.md §5 C15",
     "note": "Holds for the specification model. Repaired by fix: commits: ADD COLUMN always failed; two open transactions creating the "
-            "same name both committed (the second committer is now refused); DROP TABLE freed the pages at once (rollback could not "
+            "same name both committed (the second creator is now refused, and the first one's entry in the name index is no longer replaced); DROP TABLE freed the pages at once (rollback could not "
             "bring the table back, concurrent readers failed); the catalog's own B+tree page broke after about six entries. Listed "
             "findings: ALTER inside a rolled-back transaction stays (exact, flag updateKeepsInserterXmin, pinned); the check at commit "
             "compares created names instead of re-checking the catalog (exact, flag commitChecksInsertedKeysOnly: create + drop in one "
-            "transaction still blocks the name); regions: after two open transactions created the same name the refused one's entry has "
-            "replaced the committed one's in the name index (the committed table no longer resolves), ADD / DROP COLUMN on a table that "
+            "transaction still blocks the name); first creator wins on relation names (exact, flag createRefusedWhileNameHeld: CREATE TABLE "
+            "is refused with a conflict while an unseen, not rolled-back transaction holds the name — the specification refuses the "
+            "second COMMIT instead); regions: ADD / DROP COLUMN on a table that "
             "physically holds rows (rows are decoded with the new schema: errors or shifted values), CREATE UNIQUE INDEX / ADD "
             "CONSTRAINT in a rolled-back transaction leaves the table pointing to an index that does not exist.",
     "technique": "Lean 4 refinement proof (catalog as versioned data, reuse of the C04 simulation) + invariant + differential correspondence",
